@@ -29,7 +29,8 @@ notification point gets an `…L` twin that consults the oracle there; everythin
 The oracle's requests are executed by the `…L` twins themselves (a `play()` made by `on_process_paused` notifies
 `on_process_played`, whose listener may `pause()` again, …); the knot is tied by open recursion: every `…L` function takes
 the notification function `F : Hook → LCfg → LCfg`, and `fireN n` is `F` with nesting depth `n`.
-With the empty plan the `…L` model is the old model (`Props/C01.lean`, `C01_listener_conservative`).
+With the empty plan the `…L` model is the old model: a theorem (`Props/C01.lean`, `C01_listener_conservative_proved`;
+`PM/LProof14.lean`, `PM/LProof15.lean`).
 
 Notification points and their order (checked against the source):
 * `_exit_current_state`: ALLOWED check, EXITING callbacks (**exiting**), `state.do_exit()`;
